@@ -11,5 +11,11 @@ DefAsIs == {"lag", "lost", "dedup"}
 GenNext  == Len(hist) < Depth /\ Next
 GenSpec  == Init /\ [][GenNext]_vars
 EmitEdge == PrintT("@@B " \o ToJson(hist'))
+\* simulation mode: the last step of a walk is the deterministic no-op "End", so that exactly one complete
+\* behaviour per walk is printed (an action constraint is evaluated on every candidate successor)
+Finish   == /\ UNCHANGED cvars
+            /\ hist' = Append(hist, [a |-> "End", in |-> [x |-> 0], out |-> [x |-> 0], st |-> hist[Len(hist)].st])
+SimNext  == IF Len(hist) < Depth - 1 THEN Next ELSE (Len(hist) = Depth - 1 /\ Finish)
+SimSpec  == Init /\ [][SimNext]_vars
 EmitFull == (Len(hist') = Depth) => PrintT("@@B " \o ToJson(hist'))
 ====
